@@ -824,10 +824,16 @@ impl Prop for C09 {
         if pool.is_empty() {
             pool.push('a');
         }
+        // Maximal munch with rewinding is quadratic in the worst case, and cubic when a right
+        // context has to scan ahead at every accepting position; the long inputs are sized so
+        // that even those worst cases stay far below the watchdog (which must only fire for
+        // genuine non-termination).
+        let with_ctx = ctx.flat.sets.iter().any(|s| s.rules.iter().any(|r| r.ctx.is_some()));
+        let (long, medium) = if with_ctx { (300, 150) } else { (3_000, 1_200) };
         let n_long = tier.pick(4, 12);
         for k in 0..n_long {
             let ch = pool[k % pool.len()];
-            let len = if k % 3 == 0 { 10_000 } else { 1_200 };
+            let len = if k % 3 == 0 { long } else { medium };
             let s: String = if k % 2 == 0 {
                 std::iter::repeat(ch).take(len).collect()
             } else {
@@ -837,7 +843,7 @@ impl Prop for C09 {
             cs.push(gen::simple_case(s, script));
         }
         if let Some(f) = ctx.foreign.first() {
-            cs.push(gen::simple_case(std::iter::repeat(*f).take(2000).collect(), vec![]));
+            cs.push(gen::simple_case(std::iter::repeat(*f).take(if with_ctx { 300 } else { 2000 }).collect(), vec![]));
         }
         cs
     }
@@ -854,11 +860,11 @@ impl Prop for C09 {
             return Verdict::Bad(format!("{} action invocations for {} characters (bound is n+1)", t.a.log.len(), n));
         }
         Verdict::Ok {
-            nontrivial: (n >= 8 && model.facts.invalid > 0 && model.facts.continues > 0) || n >= 1000,
+            nontrivial: (n >= 8 && model.facts.invalid > 0 && model.facts.continues > 0) || n >= 300,
         }
     }
     fn rule(&self) -> String {
-        "definitions of every profile (rewinding, rule sets, right contexts, `$`, Unicode classes, all action kinds); inputs: short exhaustive strings, sampled lexemes with mutations, arbitrary scalar values, the empty input, a single repeated character, only-unlexable characters, and inputs of 1,200-10,000 characters; all six constructor variants. No reference is needed: the lexer must not panic, abort or hang (20 s watchdog per case, action budget n+2 enforced inside the actions), must yield at most n+1 items and run at most n+1 logged actions. Non-trivial = (n >= 8 with at least one error and one continue_) or n >= 1000.".into()
+        "definitions of every profile (rewinding, rule sets, right contexts, `$`, Unicode classes, all action kinds); inputs: short exhaustive strings, sampled lexemes with mutations, arbitrary scalar values, the empty input, a single repeated character, only-unlexable characters, and inputs of 1,200-3,000 characters (150-300 for definitions with right contexts, whose worst case is cubic); all six constructor variants. No reference is needed: the lexer must not panic, abort or hang (20 s watchdog per case, action budget n+2 enforced inside the actions), must yield at most n+1 items and run at most n+1 logged actions. Non-trivial = (n >= 8 with at least one error and one continue_) or n >= 300.".into()
     }
     fn min_nontrivial(&self, _tier: Tier) -> usize {
         200
